@@ -66,8 +66,13 @@ WordsOK ==
                        IN  ev \cup od = bonds /\ ev \cap od = {}
 
 \* ---- islands: integer components.  herm: K_b = -i H_b with Hermitian H_b (norm preservation)
-Mat(seed, b, k, n, t) == [i \in 1..n |-> [j \in 1..n |-> <<(Hash(seed, b, k, i, j, t) % 3) - 1, 0>>]]
-MatC(seed, b, k, n, t) == [i \in 1..n |-> [j \in 1..n |-> <<(Hash(seed, b, k, i, j, t) % 3) - 1, (Hash(seed + 1, b, k, j, i, t) % 3) - 1>>]]
+\* TTBase!Hash weighs i and j with 3 + a and 5 + t: for a - t = 2 (the single-site parts: a = 3, t = 1) it is symmetric in
+\* (i, j), which made every single-site generator symmetric (a propagator applied transposed went unnoticed: seed C10_e).
+\* The terms i * i * j and i break the symmetry; the replay counts the cases whose last-site generator is not symmetric
+\* and fails (machinery failure) if there is none.
+MEntry(seed, b, k, i, j, t) == ((Hash(seed, b, k, i, j, t) + i * i * j + 2 * i) % 3) - 1
+Mat(seed, b, k, n, t) == [i \in 1..n |-> [j \in 1..n |-> <<MEntry(seed, b, k, i, j, t), 0>>]]
+MatC(seed, b, k, n, t) == [i \in 1..n |-> [j \in 1..n |-> <<MEntry(seed, b, k, i, j, t), MEntry(seed + 1, b, k, j, i + 1, t)>>]]
 AdjM(A) == [i \in 1..Len(A) |-> [j \in 1..Len(A) |-> CConj(A[j][i])]]
 AddM(A, B) == [i \in 1..Len(A) |-> [j \in 1..Len(A) |-> CAdd(A[i][j], B[i][j])]]
 MulI(A) == [i \in 1..Len(A) |-> [j \in 1..Len(A) |-> CMul(<<0, -1>>, A[i][j])]]        \* -i A
